@@ -11,6 +11,7 @@ from mc.engine import Res, digest, viol
 from mc.oracle import div
 
 ID = "C03"
+CHUNK = 100
 RULE = ("states = (multiset of <=N respondents incl. the empty survey, insertion config) per "
         "schema, all enumerated; non-trivial = at least one defined (non-NaN) proportion AND "
         "at least one zero base in the same table, or any positive count; distinct = "
